@@ -54,9 +54,11 @@ class SimClf(object):
             return targets[0]
         return None
 
+    @property
     def max_send_data_size(self):
         return getattr(self.sim, 'max_send', 290)
 
+    @property
     def max_recv_data_size(self):
         return getattr(self.sim, 'max_recv', 290)
 
@@ -378,3 +380,220 @@ class Tt3EmuSim(SimBase):
         if rsp is None:
             raise nfc.clf.TimeoutError("no response")
         return bytearray(rsp)
+
+
+# ----------------------------------------------------------------------------
+# Type 4 Tag: ISO/IEC 14443-4 PICC block protocol + ISO/IEC 7816-4 files
+# ----------------------------------------------------------------------------
+FSC_TABLE = (16, 24, 32, 40, 48, 64, 96, 128, 256)
+
+
+class Tt4Card(SimBase):
+    """Written from the standards, not from the reader code.
+
+    Block protocol (ISO/IEC 14443-4 7.5.4.3, PICC rules): block number starts
+    at 1 (rule C); toggled on every I-block received (rule D) and on an R(ACK)
+    whose number differs from the current one (rule E), before sending;
+    I-block with chaining -> R(ACK); last/only I-block -> the command is
+    executed and answered with I-block(s), the response chained in pieces of
+    `tx_size` bytes; R(ACK)/R(NAK) with the current block number -> last block
+    re-transmitted (rule 11); R(NAK) with the other number -> R(ACK) (rule
+    12); R(ACK) with the other number while chaining -> next piece (rule 13);
+    optional S(WTX) request before a response.  A frame longer than FSC is
+    ignored (no answer).
+
+    Application: NFC Forum Type 4 Tag, mapping version 2.0 (NLEN 2 bytes,
+    file control TLV 04) or 3.0 (NLEN 4 bytes, TLV 06): SELECT by AID / by
+    FID, READ BINARY, UPDATE BINARY with strict Le <= MLe, Lc <= MLc and file
+    size checks.  files: {fid(int): list of byte items}.
+    """
+
+    def __init__(self, files, mle, mlc, fsci=8, fwi=4, typ="A", aid_v=2,
+                 tx_size=None, wtx_at=(), uid=b"\x08\x01\x02\x03"):
+        SimBase.__init__(self)
+        self.files = files
+        self.mle, self.mlc = mle, mlc
+        self.fsci, self.fwi, self.typ, self.aid_v = fsci, fwi, typ, aid_v
+        self.fsc = FSC_TABLE[fsci]
+        self.tx_size = tx_size if tx_size is not None else 253
+        self.wtx_at = set(wtx_at)      # indices of APDUs answered after one S(WTX)
+        self.uid = uid
+        self.activated = False
+        self.bn = 1
+        self.last = None               # last block sent
+        self.rx = []                   # chained command so far
+        self.tx = []                   # response pieces still to send
+        self.pending = None            # response held back behind S(WTX)
+        self.app = False
+        self.cur = None
+        self.executed = []             # APDUs executed (list of byte lists)
+        self.responses = []            # their responses
+        self.blocks_seen = []          # lengths of frames received while activated
+        self.base = {}                 # flat address space for write logs
+        pos = 0
+        for fid in sorted(files):
+            self.base[fid] = pos
+            pos += len(files[fid])
+
+    @property
+    def mem(self):
+        out = []
+        for fid in sorted(self.files):
+            out += self.files[fid]
+        return out
+
+    # -- what a harness needs
+    def is_write(self, cmd):
+        return self.activated and len(cmd) > 2 and (cmd[0] & 0xE2) == 0x02 and \
+            self._is_update(cmd)
+
+    def _is_update(self, cmd):
+        data = self.rx + list(cmd[1:])
+        return len(data) > 1 and data[1] == 0xD6 and not (cmd[0] & 0x10)
+
+    def snapshot_files(self):
+        return dict((k, list(v)) for k, v in self.files.items())
+
+    # -- activation
+    def ats(self):
+        return [0x05, 0x70 | self.fsci, 0x80, (self.fwi << 4) | 0x00, 0x02]
+
+    def execute(self, cmd):
+        if not self.activated:
+            if self.typ == "A" and len(cmd) == 2 and cmd[0] == 0xE0:
+                self.activated = True
+                self.fsd = FSC_TABLE[min(cmd[1] >> 4, 8)]
+                self.log.append(("rats", cmd[1]))
+                return bytearray(self.ats())
+            if self.typ == "B" and len(cmd) >= 9 and cmd[0] == 0x1D:
+                self.activated = True
+                self.fsd = FSC_TABLE[min(cmd[6] & 0x0F, 8)]
+                self.log.append(("attrib", 0))
+                return bytearray([0x00])
+            raise nfc.clf.TimeoutError("not activated")
+        self.blocks_seen.append(len(cmd))
+        if len(cmd) + 2 > self.fsc or len(cmd) == 0:
+            raise nfc.clf.TimeoutError("frame exceeds FSC")
+        pcb = cmd[0]
+        if (pcb & 0xE2) == 0x02:                    # I-block
+            if pcb & 0x0C:
+                raise nfc.clf.TimeoutError("CID/NAD not supported")
+            self.bn ^= 1                            # rule D
+            self.rx += list(cmd[1:])
+            if pcb & 0x10:                          # chaining: acknowledge
+                return self._send([0xA2 | self.bn])
+            apdu, self.rx = self.rx, []
+            k = len(self.executed)
+            rsp = self._apdu(apdu)
+            self.executed.append(apdu)
+            self.responses.append(rsp)
+            self.log.append(("apdu", k))
+            if k in self.wtx_at:
+                self.pending = rsp
+                return self._send([0xF2, 0x01])     # S(WTX) request, WTXM 1
+            return self._start_response(rsp)
+        if (pcb & 0xF6) == 0xA2 or (pcb & 0xF6) == 0xB2:    # R-block
+            if len(cmd) != 1:
+                raise nfc.clf.TimeoutError("R-block with INF")
+            nak = bool(pcb & 0x10)
+            if (pcb & 1) == self.bn:                # rule 11
+                if self.last is None:
+                    raise nfc.clf.TimeoutError("nothing to re-transmit")
+                return bytearray(self.last)
+            if nak:                                 # rule 12
+                return self._send([0xA2 | self.bn])
+            if self.tx:                             # rules E and 13
+                self.bn ^= 1
+                return self._next_piece()
+            raise nfc.clf.TimeoutError("unexpected R(ACK)")
+        if pcb == 0xF2 and len(cmd) == 2 and self.pending is not None:
+            rsp, self.pending = self.pending, None
+            return self._start_response(rsp)
+        if pcb == 0xC2:
+            self.activated = False
+            return bytearray([0xC2])
+        raise nfc.clf.TimeoutError("unknown block")
+
+    def _send(self, block):
+        self.last = list(block)
+        return bytearray(block)
+
+    def _start_response(self, rsp):
+        self.tx = [rsp[i:i + self.tx_size] for i in range(0, len(rsp), self.tx_size)]
+        return self._next_piece()
+
+    def _next_piece(self):
+        piece = self.tx.pop(0)
+        pcb = 0x02 | self.bn | (0x10 if self.tx else 0)
+        return self._send([pcb] + list(piece))
+
+    # -- ISO/IEC 7816-4
+    def _sw(self, sw, data=()):
+        return list(data) + [sw >> 8, sw & 0xFF]
+
+    def _apdu(self, a):
+        if len(a) < 4 or a[0] != 0x00:
+            return self._sw(0x6E00)
+        ins, p1, p2 = a[1], a[2], a[3]
+        body = a[4:]
+        lc, data, le = 0, [], None
+        if len(body) == 1:
+            le = body[0] or 256
+        elif len(body) > 1:
+            lc = body[0]
+            if len(body) == 1 + lc:
+                data = body[1:]
+            elif len(body) == 2 + lc:
+                data = body[1:1 + lc]
+                le = body[1 + lc] or 256
+            else:
+                return self._sw(0x6700)
+        if ins == 0xA4:
+            if p1 == 0x04:
+                aid = [0xD2, 0x76, 0x00, 0x00, 0x85, 0x01, 0x01 if self.aid_v == 2 else 0x00]
+                if list(data) == aid:
+                    self.app, self.cur = True, None
+                    return self._sw(0x9000)
+                return self._sw(0x6A82)
+            if p1 == 0x00 and self.app and len(data) == 2:
+                fid = (data[0] << 8) | data[1]
+                if fid in self.files:
+                    self.cur = fid
+                    return self._sw(0x9000)
+            return self._sw(0x6A82)
+        if ins == 0xB0:
+            if self.cur is None:
+                return self._sw(0x6985)
+            off = (p1 << 8) | p2
+            f = self.files[self.cur]
+            if le is None or le > self.mle:
+                return self._sw(0x6700)
+            if off > len(f):
+                return self._sw(0x6B00)
+            return self._sw(0x9000, f[off:off + le])
+        if ins == 0xD6:
+            if self.cur is None:
+                return self._sw(0x6985)
+            off = (p1 << 8) | p2
+            f = self.files[self.cur]
+            if lc == 0 or lc > self.mlc:
+                return self._sw(0x6700)
+            if off + lc > len(f):
+                return self._sw(0x6A84)
+            self.writes.append((self.base[self.cur] + off, f[off:off + lc], list(data)))
+            f[off:off + lc] = list(data)
+            return self._sw(0x9000)
+        return self._sw(0x6D00)
+
+
+def tt4_target(card):
+    if card.typ == "A":
+        t = nfc.clf.RemoteTarget("106A")
+        t.sens_res = bytearray(b"\x44\x03")
+        t.sel_res = bytearray(b"\x20")
+        t.sdd_res = bytearray(card.uid)
+    else:
+        t = nfc.clf.RemoteTarget("106B")
+        t.sensb_res = bytearray([0x50] + list(card.uid) + [0, 0, 0, 0] +
+                                [0x00, (card.fsci << 4) | 0x01, (card.fwi << 4)])
+    return t
